@@ -40,7 +40,7 @@ def run(tier, rep):
     tr = fe.Traces(rep)
     n = 48 if quick else 800
     for i in range(n):
-        kind = ["bytesio", "buffered", "socket", "scripted"][i % 4]
+        kind = ["bytesio", "buffered", "socket", "scripted", "pipe"][i % 5]
         data, items = gen_streams.mixed_stream(rnd, pool, rnd.randint(3, 16), well_formed=True, dmg=0.0, crlf_only=(kind == "socket"))
         parsed = rnd.random() < 0.8
         quit = rnd.choice([0, 1, 2])
